@@ -511,6 +511,11 @@ func c02Hook(c *core.Case, o *core.Outcome) {
 			return
 		}
 		cancel() // stop drains the 2 requests still pending
+		if !waitUntil(8*time.Second, func() bool { return droppedOf(env) >= 4 }) {
+			o.Violate(key, "2 requests were pending when triggering stopped (plus 2 superseded earlier): %d reported dropped, expected 4", droppedOf(env))
+			complete(env)
+			return
+		}
 		S, D = 1, 4
 	case "take-stop":
 		pk := hc.ParkNth("pool.worker.beforeTake", 1)
